@@ -951,6 +951,12 @@ func fmapRule(c *core.Ctx) {
 	}
 	idx := l.Index(an)
 	ok, n := true, 0
+	if !l.Rotated() {
+		if q := earlyExit(an, h); q != nil {
+			ok = false
+			c.Fail("positional", "hseq.FMap", lastPos(q), "the loop is left from inside its body: the entries behind that point are never mapped")
+		}
+	}
 	for _, p := range an.Segs[h] {
 		if p.To != h {
 			continue
